@@ -445,6 +445,14 @@ where
 				stats.excluded_known += 1;
 				continue;
 			}
+			if std::env::var("VERIF_COLLECT").is_ok() {
+				let key = format!("sig:{}", f.sig);
+				if !stats.counters.contains_key(&key) {
+					eprintln!("COLLECT {} :: {}", f.sig, f.msg);
+				}
+				stats.count(&key, 1);
+				continue;
+			}
 			// shrink (proptest's own simplify/complicate protocol)
 			stats.frozen = true;
 			let mut best = (v, f);
@@ -523,6 +531,15 @@ where
 			if let Err(f) = r {
 				if cfg.is_known(&f.sig) {
 					stats.excluded_known += 1;
+					continue;
+				}
+				if std::env::var("VERIF_COLLECT").is_ok() {
+					// development aid: list every distinct signature instead of stopping at the first
+					let key = format!("sig:{}", f.sig);
+					if !stats.counters.contains_key(&key) {
+						eprintln!("COLLECT {} :: {}", f.sig, f.msg);
+					}
+					stats.count(&key, 1);
 					continue;
 				}
 				return Some(Violation {
